@@ -218,8 +218,8 @@ def r5(ctx, prog):
     ctx.check(R, len(pre) == 1, g.where(), "pre_bits = MI_BITMAP_FIELD_BITS - bitidx", key="C14.R5:pre")
     cnt = g.param_id(2)
     pre_txt = rl.canon(g, pre[0]["init"]).replace(" ", "") if pre else "?"
-    defs = [(op, rl.canon(g, rhs).replace(" ", "") if rhs is not None else None) for a, rhs, op in g.var_defs(cnt)]
-    ok = ("-=", pre_txt) in defs and ("%=", str(bits)) in defs
+    defs = [(kind if kind != "rmw" else g.nodes[a]["op"], rl.canon(g, opnd).replace(" ", "") if isinstance(opnd, int) and opnd != 1 else str(opnd)) for a, kind, opnd in g.var_updates(cnt)]
+    ok = ("sub", pre_txt) in defs and ("%=", str(bits)) in defs
     ctx.check(R, ok, g.where(), "count -= pre_bits; mid = count / BITS; count %%= BITS (%s)" % defs, key="C14.R5:split")
     mid = [dd for _, dd in rl.local_decl(g, lambda dd: "init" in dd and rl.canon(g, dd["init"]).replace(" ", "") == "($2/%d)" % bits)]
     rets = [r for r in g.all(kind="ReturnStmt") if g.cv(g.nodes[r].get("val", -1)) is None]
